@@ -149,11 +149,11 @@ def erase_date(content: bytes) -> bytes:
     msg = commonroad_pb2.CommonRoad()
     try:
         msg.ParseFromString(content)
-    except Exception:  # noqa
+        for fd, _ in msg.information.date.ListFields():
+            setattr(msg.information.date, fd.name, 0)
+        return msg.SerializeToString(deterministic=True)
+    except Exception:  # noqa  — not a CommonRoad message (foreign or damaged content): compared as it is
         return content
-    for fd, _ in msg.information.date.ListFields():
-        setattr(msg.information.date, fd.name, 0)
-    return msg.SerializeToString(deterministic=True)
 
 
 def _decimals(text):
@@ -363,21 +363,26 @@ def run_case(ctx, case, model=True):
                 os.utime(p, ns=(10 ** 9, 10 ** 9))
             r = do_write(writers[label], kind, file, mode, answer)
             after = list_files(work)
-            changed = sorted(rel for rel, p in after.items() if rel not in before or os.stat(p).st_mtime_ns != 10 ** 9)
+            now = {rel: open(p, "rb").read() for rel, p in after.items()}
+            # visible change: a new file, or other bytes than before (date stamp aside)
+            visible = sorted(rel for rel in now if rel not in before or (now[rel] != before[rel] and erase_date(now[rel]) != erase_date(before[rel])))
+            # performed: also a rewrite with the same bytes (seen by the time stamp) unless the call was told to keep the file
+            keep = mode == "skip" or (mode == "ask" and answer == "n")
+            changed = sorted(set(visible) | {rel for rel, p in after.items() if not keep and os.stat(p).st_mtime_ns != 10 ** 9})
             ev = {"label": label, "kind": kind, "file": file, "mode": mode, "changed": changed, "result": r[0],
                   "prior_writes": mt["writes"], "since": [e for e in events[mt["born"] + 1:]]}
             if r[0] == "err":
                 outcomes.append({"err": r[1]})
                 ev["err"] = r
-            elif not changed:
-                outcomes.append("skipped")
+            elif not visible:
+                outcomes.append("no-change")
             else:
-                rel = changed[0]
-                content = open(after[rel], "rb").read()
-                ev["content"] = content
+                d = call(describe, now[visible[0]], names)
+                outcomes.append({"wrote": [visible[0], d[1] if d[0] == "ok" else {"unreadable": d[1]}]})
+            if r[0] == "ok" and changed:
+                rel = visible[0] if visible else changed[0]
+                ev["content"] = now[rel]
                 ev["path"] = rel
-                d = call(describe, content, names)
-                outcomes.append({"wrote": [rel, d[1] if d[0] == "ok" else {"unreadable": d[1]}]})
                 mt["writes"] += 1
             # SKIP leaves every existing file byte-for-byte untouched
             if mode == "skip":
@@ -414,7 +419,19 @@ def run_case(ctx, case, model=True):
                     mops.append(["write", idx.get(op[1], 10 ** 6), op[2], op[3], op[4], op[5] == "n"])
             ans = ctx.driver.ask("C15", "run", {"gprec": case.get("g0", 4), "inputs": [{"id": s["id"], "name": s["name"]} for s in case["inputs"]],
                                                 "pre": case["pre"], "ops": mops, "paths": paths})
-            ctx.compare(case, impl, {"outcomes": ans["outcomes"], "fs": ans["fs"]}, "writer history vs CR.Writer.run repaired symCodec")
+            # outcomes are compared by what is visible in the directory: a rewrite with the content that was there is no change
+            cur = {p: {"foreign": k} for p, k in case["pre"]}
+            mout = []
+            for o in ans["outcomes"]:
+                if o == "skipped":
+                    o = "no-change"
+                elif isinstance(o, dict) and "wrote" in o:
+                    p, d = o["wrote"]
+                    if cur.get(p) == d:
+                        o = "no-change"
+                    cur[p] = d
+                mout.append(o)
+            ctx.compare(case, impl, {"outcomes": mout, "fs": ans["fs"]}, "writer history vs CR.Writer.run repaired symCodec")
 
         # ---- oracle: content is a function of the writer's own inputs
         cache = {}
